@@ -239,6 +239,20 @@ def check_custom_only(prop, tier):
         rep.assumptions.append("equivalence for every partition of the elapsed time = per-call contract + partition lemma + tick^(a+b) = tick^b o tick^a (definition of iteration)")
         rep.bounds.append("loop unwinding bound 34 (complete: charge is a u8 and the divisor is at least 8, so at most 33 counts per call; unwinding assertions on)")
     if prop == "C14":
+        n, fails = native.c14_bounded()
+        if n is None:
+            rep.inconclusive.append("native bounded C14 stand-in did not build/run: %s" % str(fails)[-300:])
+        else:
+            for c in native.C14_CLAUSES:
+                o = rep.add(Obl("C14/bounded_write/" + c, "native execution of the write call on enumerated buffers (bounded)", unit="native_c14_bounded", fn="Cpu::trapa, trapa_emulate_mes2 (id 104), Cpu::send_stdout_message, Cpu::send_message (real)"))
+                if c in fails:
+                    o.status = FAILED
+                    o.detail = fails[c]
+                    o.witness = {"case": fails[c]}
+                else:
+                    o.status = DISCHARGED
+            rep.bounds.append("C14/bounded_write/*: %d write calls (lengths 0..4096, ASCII / NUL / newline / backslash / 2-3-4-byte UTF-8 at every alignment around offsets 31..33, buffers in on-chip RAM and DRAM incl. the last bytes of each) through the real code with message capture (BOUNDED, natively, not counted as proved)" % n)
+            rep.cmds.append("cargo test --offline native_c14_bounded (RUSTFLAGS=--cfg koge29_verif, KOGE29_C14=1)")
         rep.assumptions.append("the MES convention's GOT-save word at H'FFFD10+4*vector is accepted as part of set_handler's effect")
     return rep.finish(native.find_witness)
 
@@ -273,9 +287,17 @@ def check_c15(prop, tier):
     return rep.finish(native.find_witness)
 
 
+def check_c02(prop, tier):
+    rep = new_report(prop, tier, STEP_TECH + "; the DIVXU quotient/remainder clause over the full operand domain is discharged by Verus on the extracted divxu_b/divxu_w and register-lane helpers (unit div)")
+    step_check.run_step(rep, prop)
+    custom_check.run_verus_unit(rep, prop, "div", "Cpu::divxu_b, Cpu::divxu_w, Cpu::read_rn_b/w/l, Cpu::write_rn_w/l, Cpu::write_ccr, Cpu::get_nibble_opcode")
+    rep.notes.append("DIVXU: flags, untouched registers, PC and cost are proved by the Kani *_STRUCT harnesses (full domain, destination lanes left open); the value of the destination (quotient low, remainder high, only Rd written) is proved by the Verus unit `div` for all operands; CBMC's own full-domain divider equivalence (DIVXU_B, ~8 min) runs in the thorough tier")
+    return rep.finish(native.find_witness)
+
+
 CHECKS = {
     "C01": check_step_only,
-    "C02": check_step_only,
+    "C02": check_c02,
     "C03": check_step_only,
     "C04": check_step_only,
     "C05": check_step_plus_custom,
